@@ -5,6 +5,7 @@ import (
 	"crypto/sha256"
 	"fmt"
 	"math/big"
+	"sort"
 	"sync"
 	"time"
 
@@ -127,8 +128,13 @@ func NewNet(c *Ctx, p ChainParams) *Net {
 
 // Shutdown closes every store of the net so that their goroutines exit before the bubble ends.
 func (n *Net) Shutdown() {
-	for _, nd := range n.Nodes {
-		nd := nd
+	tags := make([]int, 0, len(n.Nodes))
+	for t := range n.Nodes {
+		tags = append(tags, t)
+	}
+	sort.Ints(tags) // map order must not decide the order of the shutdown tasks (event-log digest)
+	for _, t := range tags {
+		nd := n.Nodes[t]
 		if nd.Alive {
 			n.C.W.Do(nd.Tag, nd.Name+".shutdown", func() {
 				if nd.BC != nil {
